@@ -4,7 +4,7 @@ spec/Suppress.tla (written from man/manual.md, chapter Suppressions) defines Mat
 where the manual is silent) and Reported(F, S).  The check
   1. lets TLC write the skeleton project, the palette of planted findings, the table of suppression forms, the
      compatible form sets (the case space) and the (suppression, finding) strata of the unit level   (step gen),
-  2. picks cases from that space with the seed (quick: all singletons, 330 pairs, 330 triples, two surface forms each;
+  2. picks cases from that space with the seed (quick: all singletons, 550 pairs, 650 triples, two surface forms each;
      thorough: all singletons and pairs, triples sampled from the completely enumerated space, all surface forms), lets
      TLC check every pick against the space and render it into one tiny project per surface form: --suppress=,
      --suppressions-list=, --suppress-xml=, inline comments                                              (step render),
@@ -166,7 +166,7 @@ def choose_picks(tier, seed, meta, space):
     triples = [t for t in space if len(t) == 3]
     picks = []
     if tier == "quick":
-        n_pairs, n_triples = 330, 330
+        n_pairs, n_triples = 550, 650
         adj = {}
         for i, j in pairs:
             adj.setdefault(i, set()).add(j)
